@@ -246,22 +246,25 @@ theorem runLoop_pair (c : Nat) (env : Env) (hb : EnvBounded env c) (fuel : Nat) 
   have := runLoop_keeps c env hb fuel lang b s hi
   rw [h] at this; exact this
 
-/-- the deferred calls of `runFirst`: reset DIRTY and TERMINATE, `Up`, `Pop` -/
-theorem firstFinish_keeps (c : Nat) : EKeeps (ECacheR c) (do
+/-- the deferred calls of `runFirst`: reset DIRTY and TERMINATE, `Up`, `Pop`, the page index put back -/
+theorem firstFinish_keeps (c : Nat) (idx0 : Nat) : EKeeps (ECacheR c) (do
     let _ ← vm (resetFlagM Facts.dirtyFlag)
     let _ ← vm (resetFlagM Facts.terminateFlag)
     let e ← EM.get
     match e.vm.st.up with
     | .ok (_, st') => EM.modify fun e => { e with vm := { e.vm with st := st' } }
     | _ => pure ()
-    EM.modify fun e => { e with vm := { e.vm with ca := e.vm.ca.pop.1 } } : EM Unit) := by
+    EM.modify fun e => { e with vm := { e.vm with ca := e.vm.ca.pop.1 } }
+    EM.modify fun e => { e with vm := { e.vm with st := { e.vm.st with sizeIdx := idx0 } } } : EM Unit) := by
   have P := eCacheR_pre c
   apply EKeeps.bind P (EKeeps.vm (Keeps.of_sameCache (flagOps_sameCache _).2.1)); intro _
   apply EKeeps.bind P (EKeeps.vm (Keeps.of_sameCache (flagOps_sameCache _).2.1)); intro _
   apply EKeeps.bind P (EKeeps.get P); intro e
   dsimp only
-  have last : EKeeps (ECacheR c) (EM.modify fun e => { e with vm := { e.vm with ca := e.vm.ca.pop.1 } }) :=
-    EKeeps.modify _ (fun e hi => pop_ok' c e.vm.ca hi.1 hi.2)
+  have last : EKeeps (ECacheR c) (do
+      EM.modify fun e => { e with vm := { e.vm with ca := e.vm.ca.pop.1 } }
+      EM.modify fun e => { e with vm := { e.vm with st := { e.vm.st with sizeIdx := idx0 } } } : EM Unit) :=
+    EKeeps.bind P (EKeeps.modify _ (fun e hi => pop_ok' c e.vm.ca hi.1 hi.2)) (fun _ => EKeeps.modify_same _ (fun _ => rfl))
   split
   · exact EKeeps.bind P (EKeeps.modify_same _ (fun _ => rfl)) (fun _ => last)
   · exact last
@@ -299,7 +302,7 @@ theorem runFirstBody_keeps (c : Nat) (env : Env) (hf : FirstBounded env c) (cfg 
         apply EKeepsAt.bind P
         · exact EKeepsAt.modify _ _ (fun hi => hk hi)
         · intro _ e2 _
-          have fin := firstFinish_keeps c
+          have fin := firstFinish_keeps c e.vm.st.sizeIdx
           split
           · exact EKeepsAt.raw P _ _
           · exact EKeepsAt.bind P (fin e2) (fun _ e3 _ => EKeepsAt.fail P _ _ _)
